@@ -21,7 +21,7 @@ PATH_INSTR = {"root", "name", "dotdot", "pathsetcurrent", "PredicatesStart", "Pr
 
 PROFILE = {
     # property: (families quick, families thorough, faults in MC, replay with faults, random vectors quick/thorough)
-    "C01": dict(quick=[1, 2, 3, 4, 5, 6, 7], thorough=[1, 2, 3, 4, 5, 6, 7, 8, 9, 10], mc_faults=0, faults=False, rand=(400, 16000), rand_kind="scalar"),
+    "C01": dict(quick=[1, 2, 3, 4, 5, 6, 7, 22], thorough=[1, 2, 3, 4, 5, 6, 7, 8, 9, 10, 22], mc_faults=0, faults=False, rand=(400, 16000), rand_kind="scalar"),
     "C02": dict(quick=[11, 12, 14, 18, 20], thorough=[11, 12, 13, 14, 18, 20], mc_faults=0, faults=False, rand=(300, 24000), rand_kind="path"),
     "C03": dict(quick=[15, 17, 19, 21], thorough=[15, 16, 17, 19, 21], mc_faults=0, faults=False, rand=(300, 16000), rand_kind="ops"),
     "C05": dict(quick=[4, 6, 11, 14], thorough=[4, 6, 11, 12, 13, 14], mc_faults=4, faults=True, rand=(200, 8000), rand_kind="path"),
